@@ -14,6 +14,7 @@ import SF.Proofs.Tree
 import SF.Proofs.CborTree
 import SF.Props.C05
 import SF.Proofs.UbjParseTop
+import SF.Proofs.JsonSrcTop
 namespace SF.Props.C09
 open SF SF.Cbor SF.Cbor.Cst
 
@@ -144,3 +145,42 @@ theorem ubj_parser_wf (xs : List (Nat × Item)) (trail : Nat) (h : okElems xs = 
   SF.Props.UbjParse.parse_refines_wf xs trail h hfree
 
 end SF.PropsUbjP.C09
+
+
+/-! ## JSON parser (SF/Json/Parse.lean; proofs SF/Proofs/JsonRefine*.lean, JsonSrc*.lean) -/
+
+namespace SF.PropsJsonP.C09
+open SF SF.Json SF.Json.Parse SF.Json.ParseP SF.Json.Grammar
+
+/-- C09 for the JSON parser: the events it delivers for EVERY grammatical text (any nesting and
+white space, every escape spelling, integers and floats) form ONE contract-conforming document -/
+theorem json_parser_wf1 (t : Text) (h : t.good) : WF1 (events (parse {} t.bytes).1) = true :=
+  SF.Props.JsonSrc.json_parser_wf1 t h
+
+/-- … however the text is cut into `Write` calls -/
+theorem json_parser_wf1_chunks (t : Text) (h : t.good) (cs : List Bytes) (hcs : cs.flatten = t.bytes) :
+    (writeChunks {} cs).2 = none ∧ WF1 (events (writeChunks {} cs).1) = true :=
+  SF.Props.JsonSrc.json_parser_wf1_chunks t h cs hcs
+
+/-- … and for every STREAM of grammatical documents (separated as JSON requires) the events
+satisfy the Visitor contract automaton, also under every chunking -/
+theorem json_parser_wf (ds : List Doc) (hd : ∀ d ∈ ds, d.good) (ws0 : Bytes) (h0 : allWs ws0 = true) :
+    WF (events (parse {} (ws0 ++ streamWire ds)).1) = true :=
+  SF.Props.JsonSrc.json_parser_wf ds hd ws0 h0
+
+theorem json_parser_wf_chunks (ds : List Doc) (hd : ∀ d ∈ ds, d.good) (ws0 : Bytes) (h0 : allWs ws0 = true)
+    (cs : List Bytes) (hcs : cs.flatten = ws0 ++ streamWire ds) :
+    (writeChunks {} cs).2 = none ∧ WF (events (writeChunks {} cs).1) = true :=
+  SF.Props.JsonSrc.json_parser_wf_chunks ds hd ws0 h0 cs hcs
+
+/-- every delivered event is well-formed in itself (`evOk`): strings and keys carry well-formed
+UTF-8, numbers are int64 / uint64 events in the range of their kind or float64 events, containers
+are announced with length -1 and element type `any` -/
+theorem json_parser_events_ok (t : Text) (h : t.good) :
+    (events (parse {} t.bytes).1).all SF.Json.Grammar.evOk = true :=
+  SF.Props.JsonSrc.json_parser_events_ok t h
+
+/-- non-vacuity: ` {"a": [18446744073709551615,"\ud800é"],⏎"b":null }⏎` is a good text -/
+example : SF.Props.JsonSrc.exT.good := SF.Props.JsonSrc.exT_good
+
+end SF.PropsJsonP.C09
